@@ -511,3 +511,102 @@ func typeSummary(t ast.Type, depth int) string {
 	}
 	return s
 }
+
+// irCycleShape classifies the reference graph of an IR: "structless-cycle" when some object reaches itself through
+// references, arrays, maps, unions and intersections only (a type of infinite size: `A = [...A]`, `A = B | null; B = A`),
+// "unresolvable-refs" when a reference designates an object that no schema holds, "struct-cycle" when every cycle passes
+// through a struct member (ordinary recursive data: a tree), "acyclic" otherwise; the first that applies.
+// Safe on ill-formed IRs (kinds without bodies).
+func irCycleShape(schemas ast.Schemas) string {
+	structless := map[string][]string{}
+	all := map[string][]string{}
+	var walk func(t ast.Type, owner string, throughStruct bool, depth int)
+	walk = func(t ast.Type, owner string, throughStruct bool, depth int) {
+		if depth > 60 {
+			return
+		}
+		switch t.Kind {
+		case ast.KindRef:
+			if t.Ref != nil {
+				target := t.Ref.ReferredPkg + "." + t.Ref.ReferredType
+				all[owner] = append(all[owner], target)
+				if !throughStruct {
+					structless[owner] = append(structless[owner], target)
+				}
+			}
+		case ast.KindArray:
+			if t.Array != nil {
+				walk(t.Array.ValueType, owner, throughStruct, depth+1)
+			}
+		case ast.KindMap:
+			if t.Map != nil {
+				walk(t.Map.IndexType, owner, throughStruct, depth+1)
+				walk(t.Map.ValueType, owner, throughStruct, depth+1)
+			}
+		case ast.KindStruct:
+			if t.Struct != nil {
+				for _, f := range t.Struct.Fields {
+					walk(f.Type, owner, true, depth+1)
+				}
+			}
+		case ast.KindDisjunction:
+			if t.Disjunction != nil {
+				for _, b := range t.Disjunction.Branches {
+					walk(b, owner, throughStruct, depth+1)
+				}
+			}
+		case ast.KindIntersection:
+			if t.Intersection != nil {
+				for _, b := range t.Intersection.Branches {
+					walk(b, owner, throughStruct, depth+1)
+				}
+			}
+		}
+	}
+	for _, s := range schemas {
+		if s == nil || s.Objects == nil {
+			continue
+		}
+		s.Objects.Iterate(func(_ string, o ast.Object) {
+			walk(o.Type, s.Package+"."+o.Name, false, 0)
+		})
+	}
+	cyclic := func(g map[string][]string) bool {
+		colour := map[string]int{}
+		var visit func(n string) bool
+		visit = func(n string) bool {
+			colour[n] = 1
+			for _, m := range g[n] {
+				if colour[m] == 1 || (colour[m] == 0 && visit(m)) {
+					return true
+				}
+			}
+			colour[n] = 2
+			return false
+		}
+		for _, n := range sortedKeys(g) {
+			if colour[n] == 0 && visit(n) {
+				return true
+			}
+		}
+		return false
+	}
+	unresolvable := false
+	for _, targets := range all {
+		for _, t := range targets {
+			pkg, name, _ := strings.Cut(t, ".")
+			if !hasObject(schemas, pkg, name) {
+				unresolvable = true
+			}
+		}
+	}
+	switch {
+	case cyclic(structless):
+		return "structless-cycle"
+	case unresolvable:
+		return "unresolvable-refs"
+	case cyclic(all):
+		return "struct-cycle"
+	}
+	return "acyclic"
+}
